@@ -20,6 +20,7 @@ func init() {
 }
 
 func c01(c *Ctx) {
+	c.clientStatusFamily("stream/client", "Stream")
 	{
 		// the database filter travels as one comma-joined query value; client and server must agree
 		cs, hs := "http.(*Client).Stream", "http.(*Server).handlePostStream"
